@@ -9,6 +9,10 @@ NOTE = ("Trusted: Lean 4.33 kernel; axioms propext, Classical.choice, Quot.sound
         "harness/translate.py; the correspondence check (differential testing, generator quality bounds what it sees). ")
 
 CHECKS = {
+    "C02": dict(
+        text="For every registered non-container element the Python body of _impedance and the sympified equation string are re-translated from /repo on every run into terms of one expression language, and `evalC impl = evalC eqn` is proved for ALL complex parameter values and frequencies (22 theorems <Sym>_impl_eq_eqn; all_elements_covered fails when an element has no theorem). The translator is cross-checked on every run (generated terms evaluated by the Lean driver at complex floats vs the Python kernels and sympy). PARTIAL: whole circuits, the 3^5 sub-circuit configurations of the general transmission line and the 0 Hz / infinite-frequency limits are decided by the direct oracle on the implementation only in this revision.",
+        ref="§4 C02", tech=TECH_T,
+        note=NOTE + "numpy real powers/sqrt of non-negative reals are read as principal complex powers; IEEE rounding/overflow and sympy's evaluation and limit engines are runtime."),
     "C01": dict(
         text="Proved for ALL circuits (any nesting depth/width, any number of frequencies, any field of values): Parallel._impedance as transcribed refines the pointwise law (0 if a branch is shorted, reciprocal sum over non-open branches, InfiniteImpedance iff all open: parallel_refines), Series._impedance sums (series_refines), the recursion through _impedance refines the law on every tree (circuit_refines), also exactly as the code executes it with lazily evaluated children (circuit_refines_as_executed), array evaluation equals one-frequency-at-a-time evaluation (array_eq_pointwise), children order is irrelevant (series_perm, parallel_perm). Hypotheses forced by the code and stated: each element is open at all supplied frequencies or at none; no nested parallel connection is entirely open (known finding F28). Tie: the driver runs these same definitions at exact complex rationals on the leaf vectors of the real elements for exhaustive small topologies and random large ones and compares with Circuit.get_impedances; circuits are also built four ways and compared. PARTIAL: leaf impedances themselves are C02's business; floating rounding is runtime.",
         ref="§4 C01", tech=TECH_H,
